@@ -18,6 +18,8 @@ type pgOp struct {
 	K  string `json:"k"`
 	V  int    `json:"v"`
 	Fl []bool `json:"fl"`
+	// the statements that fail in this operation fail on the client side (the transaction is not poisoned)
+	Soft bool `json:"soft"`
 }
 
 type pgOpRec struct {
@@ -36,6 +38,9 @@ type pgEvent struct {
 	Log   []string `json:"log"`
 	Open  int      `json:"open"`
 	Twice bool     `json:"twice"` // some transaction was ended more than once / used after its end
+	Soft  bool     `json:"soft"`
+	// committed content of the server after the operation, per key of the universe (0 = absent): what a fresh handle reads
+	Durable map[string]int `json:"durable"`
 	Seq   int      `json:"seq"`
 }
 
@@ -47,6 +52,7 @@ func runPgSequence(ops []pgOp, seq int, out *ndw, kinds map[string]int) {
 	p.SetSession("s")
 	for i, o := range ops {
 		srv.plan = o.Fl
+		srv.soft = o.Soft
 		srv.used = 0
 		srv.log = nil
 		res, val := "", 0
@@ -83,7 +89,13 @@ func runPgSequence(ops []pgOp, seq int, out *ndw, kinds map[string]int) {
 				res = "err"
 			}
 		}()
-		ev := pgEvent{Ev: "pgop", First: i == 0, Op: pgOpRec{o.Op, o.K, o.V}, Fl: o.Fl, Res: res, Val: val, Log: []string{}, Open: len(srv.open), Seq: seq}
+		ev := pgEvent{Ev: "pgop", First: i == 0, Op: pgOpRec{o.Op, o.K, o.V}, Fl: o.Fl, Res: res, Val: val, Log: []string{}, Open: len(srv.open), Seq: seq, Soft: o.Soft,
+			Durable: map[string]int{"a": 0, "b": 0, "c": 0}}
+		for sk, sv := range srv.committed {
+			if len(sv) == 1 && len(sk) > 0 {
+				ev.Durable[sk[len(sk)-1:]] = int(sv[0])
+			}
+		}
 		if ev.Fl == nil {
 			ev.Fl = []bool{}
 		}
@@ -165,6 +177,7 @@ func cmdPgRandom(args []string) error {
 					o.Fl = append(o.Fl, false)
 				}
 				o.Fl = append(o.Fl, true)
+				o.Soft = rng.Intn(2) == 0 && (o.Op == "put" || o.Op == "get")
 			}
 			ops = append(ops, o)
 		}
